@@ -351,6 +351,7 @@ impl Engine for C12 {
                 net_faults: vec![],
                 server_today: None,
                 clock_tz: sc.clock_tz,
+                now_shift: 0,
                 fs_faults: FsFaultSpec::default(),
                 knobs: Knobs::default(),
                 hash_seed: sc.hash_seed,
@@ -493,6 +494,7 @@ impl Engine for C12 {
                 net_faults: vec![],
                 server_today: None,
                 clock_tz: sc.clock_tz,
+                now_shift: 0,
                 fs_faults: FsFaultSpec::default(),
                 knobs: Knobs::default(),
                 hash_seed: sc.hash_seed ^ 0x11,
@@ -519,6 +521,7 @@ impl Engine for C12 {
                 net_faults: dg.net_faults.clone(),
                 server_today: None,
                 clock_tz: sc.clock_tz,
+                now_shift: 0,
                 fs_faults: FsFaultSpec::default(),
                 knobs: Knobs::default(),
                 hash_seed: sc.hash_seed ^ 0x12,
@@ -604,6 +607,7 @@ impl Engine for C12 {
                 net_faults: vec![],
                 server_today: None,
                 clock_tz: sc.clock_tz,
+                now_shift: 0,
                 fs_faults: FsFaultSpec::default(),
                 knobs: Knobs::default(),
                 hash_seed: sc.hash_seed,
@@ -656,6 +660,7 @@ impl Engine for C12 {
                     net_faults: vec![],
                     server_today: None,
                     clock_tz: sc.clock_tz,
+                    now_shift: 0,
                     fs_faults: FsFaultSpec::default(),
                     knobs: Knobs::default(),
                     hash_seed: sc.hash_seed,
